@@ -289,30 +289,9 @@ def closed_form_oracle(case):
 
 
 def regenerate(ctx):
-    """§2.4(a): re-translate the scheduler classes of the tree under test into Generated/Schedulers.lean; if the text
-    changed, re-build and re-audit (the `generated_*_eq_model` theorems then have to go through for the new text)"""
-    import os
-
+    from .. import regen
     from . import c17_trans as T
-    try:
-        txt = T.translate()
-        ctx.extra["translator"] = "ok"
-    except T.Untranslatable as e:
-        txt = f"/-! GENERATED – the scheduler source is outside the translator's subset: {str(e)[:300].replace('-/', '- /')} -/\nnamespace Opacus.Generated.Sched\nend Opacus.Generated.Sched\n"
-        ctx.extra["translator"] = "untranslatable: " + str(e)[:300]
-        ctx.log("translator:", ctx.extra["translator"])
-    old = T.GEN_FILE.read_text() if T.GEN_FILE.exists() else None
-    ctx.extra["generated_schedulers"] = "unchanged" if old == txt else "CHANGED (re-proved)"
-    if old == txt:
-        return
-    foreign = os.path.realpath(str(core.REPO)) != "/repo"
-    try:
-        T.GEN_FILE.write_text(txt)
-        ctx.obligations = []
-        ctx.prove()
-    finally:
-        if foreign and old is not None:   # experiments on other checkouts must not leave their text in the shared library
-            T.GEN_FILE.write_text(old)
+    regen.regenerate(ctx, T, "Opacus.Generated.Sched", "opacus/schedulers")
 
 
 def run(ctx):
